@@ -6,9 +6,13 @@ MAPW = ['w_map_set', 'w_map_get', 'w_map_has_key', 'w_map_del', 'w_map_resize', 
 OPS = {0: 'set', 1: 'get_has', 2: 'del', 3: 'next', 4: 'to_array', 5: 'clear', 6: 'copy_from', 7: 'resize', 8: 'set_with_growth'}
 OBLIGATIONS = [
     Ob('map_step', 'C20/map.c', MAPW, stubs=[HASH, COPYSTR], ir='ni',
-       what='Map<uint64_t>: one set/get/has_key/del/next/to_array/clear/copy_from/resize from an arbitrary valid table equals the abstract map, invariant re-established, other keys untouched',
+       what='Map<uint64_t>: one set/get/has_key/del/next/to_array/clear/resize from an arbitrary valid table equals the abstract map, invariant re-established, other keys untouched',
        bound='capacity 4, every slot pattern / key / value, hash an arbitrary function; 1-character keys',
-       variants=[{'OP': k} for k in range(9) if k != 6], unwind=10, timeout=400, mem_gb=10, real=False,
+       variants=[{'OP': k} for k in (0, 1, 2, 3, 4, 5, 7)], unwind=10, timeout=400, mem_gb=10, retry_defines=['-DREAL_HASH'],
+       callrename={'_ZN5gdstk3MapImE3setEPKcm': {'_ZN5gdstk3MapImE6resizeEm': 'map_resize_from_set'}}),
+    Ob('map_set_with_growth', 'C20/map.c', MAPW, stubs=[HASH, COPYSTR], ir='ni',
+       what='Map<uint64_t>::set at the load threshold grows once (resize by the contract proved in map_step OP 7) and then inserts correctly',
+       bound='capacity 4 -> 8', variants=[{'OP': 8}], unwind=10, timeout=400, mem_gb=10, real=False,
        callrename={'_ZN5gdstk3MapImE3setEPKcm': {'_ZN5gdstk3MapImE6resizeEm': 'map_resize_from_set'}}),
     Ob('map_copy_from', 'C20/map.c', MAPW, stubs=[HASH, COPYSTR], ir='ni',
        what='Map<uint64_t>::copy_from gives a valid deep copy with the same content and never grows', bound='capacity 4, occupancy patterns {none, slot0, slots 0+2, slots 1+3}, keys/values/hash symbolic',
